@@ -693,7 +693,12 @@ func opLet(env *LEnv, args *LVal) *LVal {
 		if len(bind.Cells) != 2 {
 			return env.Errorf("first argument is not a list of pairs")
 		}
-		vals[i] = letenv.Eval(bind.Cells[1])
+		// Initialisers are evaluated in the ENCLOSING scope, as the docstring
+		// says.  Evaluating them in letenv made a closure created by an
+		// initialiser capture letenv itself, so it later observed the let's
+		// own bindings (including a shadowing rebinding of a name it closed
+		// over) instead of the environment it was created in.
+		vals[i] = env.Eval(bind.Cells[1])
 		if vals[i].Type == LError {
 			return vals[i]
 		}
